@@ -48,7 +48,26 @@ Definition tHop (t : tree) : hop :=
   else if tag =? 4 then HAddRight (tStyle (tNth t 1))
   else HAddLeft (tStyle (tNth t 1)).
 
+Definition tOptB (t : tree) : option bool := let z := tZ t in if z <? 0 then None else Some (negb (z =? 0)).
+Definition tCsArg (t : tree) : cs_arg :=
+  let z := tZ t in if z =? 0 then CSA_none else if z =? 5 then CSA_auto else CSA_name (DrvColor.tSys t).
+(* [NO_COLOR?, COLORTERM?, TERM?] *)
+Definition tEnv (t : tree) : envv := mkEnv (tOpt tStr (tNth t 0)) (tOpt tStr (tNth t 1)) (tOpt tStr (tNth t 2)).
+(* [force_terminal, color_system, no_color, legacy_windows, env] (+ fix flags); the file is a StringIO: isatty() = False *)
+Definition tEnvCfg (t : tree) (fx fc : bool) : cfg :=
+  cfg_of_env (tOptB (tNth t 0)) false (tCsArg (tNth t 1)) (tOptB (tNth t 2)) (tOptB (tNth t 3)) (tEnv (tNth t 4)) fx fc.
+Definition ofSysOpt (o : option ColorSystem) : tree := match o with None => I 0 | Some s => I (ColorSystem_int s) end.
+
 Definition ops : list (string * (tree -> tree)) := [
+  ("ansi.cfg_of_env", fun t =>
+      let k := tEnvCfg t true true in
+      L [ofSysOpt (k_system k); ofB (k_no_color k); ofB (k_terminal k); ofB (k_legacy k)]);
+  (* [ctor, [fix_d16, fix_ctl], segs] *)
+  ("ansi.env_render", fun t =>
+      ofRes ofStr (render_buffer (tEnvCfg (tNth t 0) (tB (tNth (tNth t 1) 0)) (tB (tNth (tNth t 1) 1)))
+                                 (tList tASeg (tNth t 2))));
+  ("spec.ansi.no_color_convention", fun t =>    (* [no_color keyword, NO_COLOR present, console.no_color] *)
+      ofB (no_color_convention_b (tOptB (tNth t 0)) (tB (tNth t 1)) (tB (tNth t 2))));
   (* the oracle itself: str -> [cells, in ground state?, final rendition, SGR parameters, #other controls] *)
   ("sgr.interp", fun t =>
       let '(m, st, ev) := run PGround t_reset (tStr t) in
